@@ -400,6 +400,7 @@ func (f *atomic) ensure() error {
 	if f.led, err = newLedger(); err != nil {
 		return err
 	}
+	ledger.DefLedger = f.led.lg // some parameter serialisers consult the global ledger (fork height switch)
 	if f.twin {
 		if f.led2, err = newLedger(); err != nil {
 			return err
